@@ -82,9 +82,30 @@ def exhaustive_functions(ctx):
                           exhaustive=nbad == 0)
         if not lsb:
             ctx.real_dec = dec
+    sensitivity_self_test(ctx)
     ctx.cov.count("encoder inputs (d,k,disp) x format", 2048)
     ctx.cov.count("decoder inputs x format", 2048)
     return dis
+
+
+def sensitivity_self_test(ctx):
+    """The property oracles must fire on in-memory perturbations of the real code's maps (never on the real maps:
+    that is checked by `search` only when something broke, and by the monitors during co-simulation)."""
+    enc, dec = ctx.real_enc, ctx.real_dec
+    e2 = dict(enc)
+    e2[(3, 0, 0)] = (enc[(3, 0, 1)][0], 1)            # D3.0 under RD- emitted with its RD+ word
+    r1 = c17lib.static_search(e2, dec)
+    d2 = dict(dec)
+    d2[enc[(0xBC, 1, 0)][0]] = (0xBC, 0, 0)           # K28.5 decoded without its control flag
+    r2 = c17lib.static_search(enc, d2)
+    e3 = dict(enc)
+    e3[(0xF1, 0, 0)] = (0b1000111110, enc[(0xF1, 0, 0)][1])   # D17.7 without the alternate A7: false comma
+    r3 = c17lib.static_search(e3, dec)
+    kinds = [r and r["kind"] for r in (r1, r2, r3)]
+    if kinds != ["sequence", "roundtrip", "sequence"] or "comma" not in r3["what"]:
+        raise RuntimeError("C17 oracle sensitivity self-test failed: %r" % (kinds,))
+    if c17lib.static_search(enc, dec) is None:
+        ctx.cov.notes.append("oracle self-test: 3/3 in-memory perturbations flagged; unchanged maps accepted")
 
 
 def jobs(tier):
@@ -92,7 +113,7 @@ def jobs(tier):
     mod = _mod()
     J = []
     A = lambda mk, **kw: J.append(Job("A", mk, max_states=60000 if quick else 1000000, **kw))
-    B = lambda mk, **kw: J.append(Job("B", mk, cycles=2000 if quick else 20000, runs=1 if quick else 4, **kw))
+    B = lambda mk, **kw: J.append(Job("B", mk, cycles=1500 if quick else 8000, runs=1 if quick else 2, **kw))
     A(lambda: c17lib.EncoderInst(mod, 1, False))
     A(lambda: c17lib.EncoderInst(mod, 1, True))
     A(lambda: c17lib.EncoderInst(mod, 2, False, symbols=c17lib.SYMS4[:1] + c17lib.SYMS4[2:] if quick else c17lib.SYMS4))
@@ -116,8 +137,58 @@ def jobs(tier):
     return J
 
 
+def corpus_inst(entry):
+    mod = _mod()
+    if entry["kind"] == "encoder":
+        return c17lib.EncoderInst(mod, entry["n"], bool(entry.get("lsb", 0)))
+    if entry["kind"] == "decoder":
+        return c17lib.DecoderInst(mod, bool(entry.get("lsb", 0)))
+    return c17lib.make_stream_inst(entry["kind"], mod, entry["n"], "A")
+
+
+def run_corpus(ctx):
+    """Past disagreement traces and finding witnesses (corpus/C17/*.json), lock-step on the real code and the model,
+    with the instance's property monitor armed (the finding witness is exempt from the monitor by construction:
+    the monitor disarms its balance check at the first bubble)."""
+    import glob, json, os
+    from explore import impl_step, _masked_equal
+    dis = []
+    files = sorted(glob.glob(os.path.join(os.path.dirname(os.path.dirname(os.path.abspath(c17lib.__file__))),
+                                          "corpus", "C17", "*.json")))
+    for f in files:
+        entry = json.load(open(f))
+        inst = corpus_inst(entry)
+        trace = [tuple(l) for l in entry["trace"]]
+        mon = inst.monitor()
+        outs, msg = [], None
+        for t, letter in enumerate(trace):
+            o = impl_step(inst, letter)
+            outs.append(o)
+            m = mon.observe(letter, o)
+            if m and msg is None:
+                msg = (t, m)
+        ctx.lean.open(inst.lean_open)
+        mouts = ctx.lean.run(trace)
+        ctx.lean.close_session()
+        for t in range(len(trace)):
+            if not _masked_equal(inst, outs[t], mouts[t]):
+                d = Disagreement(inst, trace[:t + 1], t, outs[t], mouts[t])
+                d.inst = None
+                dis.append(d)
+                break
+        if msg:
+            d = Disagreement(inst, trace[:msg[0] + 1], msg[0], outs[msg[0]], None, kind="monitor:" + msg[1])
+            d.inst = None
+            dis.append(d)
+        ctx.cov.add_instance("corpus/" + os.path.basename(f), states=0, transitions=len(trace),
+                             nontrivial=sum(1 for l, o in zip(trace, outs) if inst.nontrivial(l, o)),
+                             exhaustive=False, mode="corpus")
+    return dis
+
+
 def correspond(ctx):
-    dis = exhaustive_functions(ctx)
+    dis = run_corpus(ctx)
+    dis += exhaustive_functions(ctx)
     ctx.jobs = jobs(ctx.tier)
     d2, bad = run_jobs(ctx, ctx.jobs)
     return dis + d2
